@@ -10,6 +10,7 @@ mod failpath;
 mod fsm;
 mod gate;
 mod cgen;
+mod clocksim;
 mod img;
 mod inflight;
 mod migr;
@@ -48,6 +49,7 @@ fn main() {
         "abufallocchild" => abuf::allocchild(&opts),
         "gate" => gate::run(&opts),
         "cgen" => cgen::run(&opts),
+        "clocksim" => clocksim::run(&opts),
         "failpath" => failpath::run(&opts),
         "failpathchild" => failpath::child(&opts),
         "scansched" => scansched::run(&opts),
